@@ -74,16 +74,36 @@ def r141(db, ctx):
                     CA = iteralg.Canon(f, R)
                     tc, vc = CA.canon(tg), CA.canon(v)
                     bt = m(('at', ('at', '$m', '$row'), '$col'), tc)
-                    if bt is not None:
+                    if bt is not None and iteralg.is_pos(bt['$row']) and iteralg.is_pos(bt['$col']):
+                        # identity copy  m[i][j] = f(src[i][j])  over every row of src and every cell of its rows
+                        srcs = [x for x in X.walk(vc) if x[0] == 'at' and x[2] == bt['$col'] and x[1][0] == 'at' and x[1][2] == bt['$row']]
+                        if srcs:
+                            src = srcs[0][1][1]
+                            er, ec = CA.extents.get(bt['$row'][1]), CA.extents.get(bt['$col'][1])
+                            if er in ([('rows', src)], [('len', src)]) and ec == [('len', ('at', src, bt['$row']))]:
+                                probs = []
+                    if bt is not None and probs:
                         vecs = [x for x in X.walk(vc) if x[0] == 'at' and x[2] == bt['$row']]
                         rpos = [x for x in X.walk(bt['$row']) if iteralg.is_pos(x)]
                         cm = m(('call~', 'Symbol::as_index', ('$sym',)), bt['$col'])
                         if vecs and rpos and cm is not None:
                             vec = vecs[0][1]
                             own = any((c_[0] == 'len' and c_[1] == vec) or (c_[0] == 'sub' and c_[2] == ('k', 0) and common.is_len_of(c_[1], vec)) for c_ in CA.extents.get(rpos[0][1], []))
-                            kv = {x for x in X.walk(vec) if iteralg.is_pos(x) or x[0] == 'elem'}
-                            ks = {x for x in X.walk(cm['$sym']) if iteralg.is_pos(x) or x[0] == 'elem'}
-                            if own and (kv & ks):
+                            if not own:
+                                # `for i in 0..rows` with rows = len of another vector, under a dominating check len(vec) == rows
+                                for c_ in CA.extents.get(rpos[0][1], []):
+                                    if c_[0] == 'sub' and c_[2] == ('k', 0):
+                                        for r_ in G.relations(f, R, s['block']):
+                                            if r_[0] == 'eq':
+                                                a_, b_ = CA.canon(r_[1]), CA.canon(r_[2])
+                                                if (common.is_len_of(a_, vec) and b_ == c_[1]) or (common.is_len_of(b_, vec) and a_ == c_[1]):
+                                                    own = True
+                            # pairing: apart from the row position, the value and the symbol are selected by the same iteration
+                            # (`input[k][i]` with `symbols[k]`, or `counts[i][j]` with `symbols[j]`)
+                            atoms = lambda e_: {x for x in X.walk(e_) if iteralg.is_pos(x) or x[0] == 'elem'}
+                            kv = atoms(vc) - atoms(bt['$row'])
+                            ks = atoms(cm['$sym'])
+                            if own and ks and ks <= kv:
                                 probs = []
                 if probs:
                     ctx.fail('R14.1', f, 'matrix fill: ' + X.show(tg, 90), '; '.join(probs), span=s['span'])
